@@ -143,10 +143,10 @@ def signed_graph(rs, n, dens, negfrac, und, wmax=9):
 def gen_cases(rs, tier):
     big = tier == 'thorough'
     cases = []
-    per = 14 if not big else 120
+    per = 40 if not big else 400
     for r in ROUTINES:
         und = r in UND
-        for n in range(4, 10):
+        for n in range(4, 10 if not big else 13):
             for _ in range(per):
                 dens = float(rs.choice([.3, .5, .8, 1.0])); neg = float(rs.choice([.2, .5, .8]))
                 W = signed_graph(rs, n, dens, neg, und, wmax=int(rs.choice([1, 9, 9])))
@@ -184,7 +184,7 @@ PREDS = {'pos-out-degree', 'neg-out-degree', 'pos-in-degree', 'neg-in-degree', '
 
 def main():
     ck = Check(PID)
-    ck.cov['rule'] = ('cases = (routine, W, itr/bin_swaps, wei_freq, seed): random signed integer-weight networks (weights +-1..9 or +-1), n=4..9, '
+    ck.cov['rule'] = ('cases = (routine, W, itr/bin_swaps, wei_freq, seed): random signed integer-weight networks (weights +-1..9 or +-1), n=4..9(12), '
                       'densities .3-1, negative fraction .2-.8, symmetric for the _und routines, bin_swaps in {0,1,5}, wei_freq in {0,.1,.5,1}, '
                       'plus all-positive / all-negative edge cases and an asymmetric malformed stream; non-trivial = distinct case whose output differs from the input')
     ck.assumptions += ['inputs are integer-valued float matrices (exact arithmetic in the dealing stage, exact comparison of outputs)',
@@ -195,7 +195,12 @@ def main():
     if ck.tier == 'thorough' and ok:
         ck.leanchecker(['BctVerif.Props.C06', 'BctVerif.Model.Signed'])
     if ck.replay:
-        cases = [json.load(open(ck.replay))['case']['case']]
+        rp = json.load(open(ck.replay))
+        if 'case' in rp:            # a violation replay: the failing input
+            cases = [rp['case']['case']]
+        else:                       # a 'no longer checks' replay: the correspondence cases named in it
+            cases = [b['detail']['case'] for b in rp.get('no_longer_checks', [])
+                     if isinstance(b.get('detail'), dict) and 'case' in b['detail']]
     else:
         cases = gen_cases(ck.rs, ck.tier)
     results = pmap(run_case, cases)
